@@ -26,6 +26,7 @@ def run(tier):
         "file, -q/-v/--varnames/-of variants of the output against the renderings of the library formula. Sub-commands with randomness "
         "are run under three deterministic draw streams shared by the command line and the library call.")
     run.bounds = ['numeric parameters <=4, graphs <=9 vertices', '16 transformations x (none + 6) second transformations x 6 base formulas', '3 draw streams for random sub-commands']
+    run.bounds += ['substitution arities 1,2,4,5,9 (thresholds 1,2,k//2,k,k+1) on a two-unit-clause formula, alone and after -T xor 2 (arity <=3)', 'graphs with 0, 1, 2 isolated vertices read from files, alone and as second graph of iso/subgraph', 'LaTeX documents of formulas with 35, 36, 45, 70 clauses: as many rows as clauses']
     run.outside = ['larger arguments', 'interactive stdin prompts', 'random sub-commands under all draw outcomes (see C13/C15 for the generators themselves)']
     run.assumptions = ['stub: cnfgen.graphs.open / graph_fileinput.open -> in-memory file for `save` then read', 'deterministic RNG streams for the random sub-commands']
     T = 400 if tier == 'quick' else 1200
